@@ -1,10 +1,14 @@
 /-
   Engine `scan` (C11).  Op line (see harness/scan.cpp):
-    <text-hex|-> [alt=<text-hex|->] [sent=<sentence of the specification, see Driver/ScanSentence.lean>]
+    <text-hex|-> [alt=<text-hex|->] [sent=<sentence of the specification, see Driver/ScanSentence.lean>] [ns]
   Output line:
-    C <count> W <written> R <rd>/<len> V <cell>* P <text2-hex|-> C2 <count2> W2 <written2> R2 <rd2>/<len2> V2 <cell>*
+    C <count> W <written> R <rd>/<len> V <cell>* P C2 <count2> W2 <written2> R2 <rd2>/<len2> V2 <cell>*
     [ | A C <count> W <written> R <rd>/<len> V <cell>*]
   from the model: `C11.countPrintedArgVals`, `C11.scanArgVals`, `C11.printArgVals defaultOpt`.
+  The printed text is not part of the line (the property observes count / cells written / bytes
+  consumed / values); booleans carry their payload (`T1`, `F0`: `showCellT`).
+  With `ns` (a text outside the grammar: nothing is demanded) the line is `NS` whenever the model
+  stays inside defined behaviour, else the full line with its `model:<kind>`.
   After a negative count the group ends.  Where the real code would leave defined behaviour
   the group ends with `model:<kind>` (the harness then prints what the machine happened to do,
   or `crash:…`; the lines differ).
@@ -15,7 +19,7 @@ import Driver.ScanSentence
 namespace Driver.ScanEngine
 open Rtosc Rtosc.Libc Rtosc.Pretty
 open Rtosc.ArgVal (Cell)
-open Driver.PrettyEngine (showCell showErr)
+open Driver.PrettyEngine (showCellT showErr)
 
 /-- count + scan of `text`: the output group with suffix `sfx`, and the scanned cells -/
 def countScan (text : Bytes) (sfx : String) : String × Option (List Cell) :=
@@ -32,7 +36,7 @@ def countScan (text : Bytes) (sfx : String) : String × Option (List Cell) :=
           -- the scanner writes behind the `count` cells it was given
           (s!"C{sfx} {count} W{sfx} model:overrun:{cells.length}", none)
         else
-          let cellsTxt := String.join (cells.map (fun c => " " ++ showCell c))
+          let cellsTxt := String.join (cells.map (fun c => " " ++ showCellT c))
           (s!"C{sfx} {count} W{sfx} {n} R{sfx} {rd}/{text.length} V{sfx}{cellsTxt}", some cells)
 
 /-- a range with a count ≤ 0 outside of an array: the print / rescan part is skipped
@@ -69,19 +73,24 @@ def step (line : String) : String :=
           | .error e => g1 ++ " P " ++ showErr e
           | .ok (st, _) =>
             let text2 := st.out.takeWhile (· ≠ 0)
-            g1 ++ " P " ++ toHex text2 ++ " " ++ (countScan text2 "2").1
+            g1 ++ " P " ++ (countScan text2 "2").1
       -- the specification's reading of the sentence (if the op line carries one)
       let spec : String := match more.find? (fun w => w.startsWith "sent=") with
         | none => ""
         | some w => Driver.ScanSentence.check (String.ofList (w.toList.drop 5)) text
       let main := main ++ spec
-      match more.find? (fun w => w.startsWith "alt=") with
-      | none => main
-      | some w =>
-        match ofHex (String.ofList (w.toList.drop 4)) with
-        | none => "bad-op"
-        | some alt =>
-          if alt.contains 0 then "bad-op" else main ++ " | A " ++ (countScan alt "").1
+      let full : String :=
+        match more.find? (fun w => w.startsWith "alt=") with
+        | none => main
+        | some w =>
+          match ofHex (String.ofList (w.toList.drop 4)) with
+          | none => "bad-op"
+          | some alt =>
+            if alt.contains 0 then "bad-op" else main ++ " | A " ++ (countScan alt "").1
+      -- a text outside the grammar: only "stays inside defined behaviour" is compared
+      let isNs : Bool := more.any (fun w => w == "ns")
+      let defined : Bool := (full.splitOn "model:").length == 1
+      if isNs && full != "bad-op" && defined then "NS" else full
 
 def engine : Driver.Engine := Driver.stateless step
 end Driver.ScanEngine
